@@ -111,7 +111,7 @@ class StepChecker:
                         finally:
                             p[...] = saved
 
-                    status, info = compare(F, f0, an, S, retry_h=1e-6 if self.base in ("tv", "wasserstein") else None)
+                    status, info = compare(F, f0, an, S, retry_h=1e-6)  # ReLU patterns, TV signs, transport bases may change within 1e-4
                     if status == "kink":
                         self.stats["kink_skipped"] += 1
                         continue
